@@ -1,5 +1,6 @@
 (* props/C12.v -- C12: optional data validators accept exactly the valid data. *)
 From Geff Require Import Base GraphVal GraphValLemmas.
+From Geff Require Import SylvesterLemmas.
 Open Scope Z_scope.
 Open Scope list_scope.
 
@@ -52,10 +53,13 @@ Theorem C12_sphere : forall ndim radii miss,
 Proof. exact sphere_ok_iff. Qed.
 Print Assumptions C12_sphere.
 
-(* ellipsoid: over the entries not flagged missing: a stack of square matrices whose side is
-   the number of spatial axes, each symmetric and positive-definite (Sylvester's criterion:
-   all leading principal minors positive -- this criterion is the model's definition of
-   positive-definite; its equivalence with x^T A x > 0 is classical and not re-proved here) *)
+(* ellipsoid, RESTATEMENT OF THE MODEL: the right-hand side still contains the model's own
+   booleans `symmetric` and `pos_def` (leading principal minors), so this theorem only unfolds
+   ellipsoid_ok into its five conjuncts (shape conditions + the per-matrix test over the entries
+   not flagged missing).  It does not by itself say "symmetric and positive-definite"; that is
+   C12_symmetric_spec, C12_posdef_1/_2/_3 and C12_ellipsoid_spec right below, which tie the two
+   booleans to m[i][j] = m[j][i] and to x^T m x > 0 for all non-zero x (Sylvester's criterion
+   proved in both directions for sides 1, 2, 3; sides >= 4 are covered by this restatement only). *)
 Theorem C12_ellipsoid : forall spatial ndim r c mats miss,
   ellipsoid_ok spatial ndim r c mats miss = true <->
   (0 < spatial)%nat /\ ndim = 3%nat /\ r = c /\ r = spatial /\
@@ -63,7 +67,80 @@ Theorem C12_ellipsoid : forall spatial ndim r c mats miss,
 Proof. exact ellipsoid_ok_iff. Qed.
 Print Assumptions C12_ellipsoid.
 
-(* dispatch: validate_data raises iff an enabled validator whose property is declared fails;
+(* the boolean symmetry test is entrywise symmetry, for every side n *)
+Theorem C12_symmetric_spec : forall n m,
+  symmetric n m = true <-> (forall i j, (i < n)%nat -> (j < n)%nat -> mat_get m i j = mat_get m j i).
+Proof. exact symmetric_iff. Qed.
+Print Assumptions C12_symmetric_spec.
+
+(* Sylvester's criterion, both directions, against the quadratic form over the integer vectors
+   (SylvesterLemmas.v: qform n m x = sum_{i,j<n} x_i m_ij x_j; pd_spec n m = forall x of length n
+   with a non-zero entry, 0 < qform n m x; integer vectors suffice for an integer matrix, see the
+   head of SylvesterLemmas.v).  No shape hypothesis: a short/ragged m is read as padded with zeros
+   by det, leading and mat_get alike. *)
+Theorem C12_posdef_1 : forall m,
+  pos_def 1 m = true <->
+  (forall x, length x = 1%nat -> (exists i, nth i x 0 <> 0) -> 0 < qform 1 m x).
+Proof. exact sylvester_1. Qed.
+Print Assumptions C12_posdef_1.
+
+Theorem C12_posdef_2 : forall m,
+  (forall i j, (i < 2)%nat -> (j < 2)%nat -> mat_get m i j = mat_get m j i) ->
+  (pos_def 2 m = true <->
+   (forall x, length x = 2%nat -> (exists i, nth i x 0 <> 0) -> 0 < qform 2 m x)).
+Proof. exact sylvester_2. Qed.
+Print Assumptions C12_posdef_2.
+
+Theorem C12_posdef_3 : forall m,
+  (forall i j, (i < 3)%nat -> (j < 3)%nat -> mat_get m i j = mat_get m j i) ->
+  (pos_def 3 m = true <->
+   (forall x, length x = 3%nat -> (exists i, nth i x 0 <> 0) -> 0 < qform 3 m x)).
+Proof. exact sylvester_3. Qed.
+Print Assumptions C12_posdef_3.
+
+(* ellipsoid against the declarative notions, for at most three spatial axes: over the entries
+   not flagged missing, a stack of square matrices whose side is the number of spatial axes, each
+   entrywise symmetric with a positive quadratic form on every non-zero vector *)
+Theorem C12_ellipsoid_spec : forall spatial ndim r c mats miss, (r <= 3)%nat ->
+  (ellipsoid_ok spatial ndim r c mats miss = true <->
+   (0 < spatial)%nat /\ ndim = 3%nat /\ r = c /\ r = spatial /\
+   Forall (fun m => sym_spec r m /\ pd_spec r m) (present miss mats)).
+Proof. exact ellipsoid_ok_spec. Qed.
+Print Assumptions C12_ellipsoid_spec.
+
+(* "the entries not flagged missing" (present, used by C12_sphere / C12_ellipsoid / C12_ellipsoid_spec): with one flag per
+   row it is exactly the rows whose flag is false.  DOMAIN NOTE: for a mask of another length numpy raises IndexError
+   (boolean index of the wrong size) while keep_present truncates (keep_present_short in SylvesterLemmas.v); the
+   harness never generates such a mask and structure validation rejects it in a store, so the model is used only
+   under the length hypothesis of this theorem. *)
+Theorem C12_present_spec : forall (miss : list bool) (rows : list matrix) r,
+  length miss = length rows ->
+  (In r (present (Some miss) rows) <-> exists i, nth_error miss i = Some false /\ nth_error rows i = Some r).
+Proof. intros miss rows r. exact (keep_present_In miss rows r). Qed.
+Print Assumptions C12_present_spec.
+
+(* non-vacuity of the five theorems above: the hypotheses hold for concrete matrices on which the
+   booleans take both values; an explicit vector with x^T m x <= 0 for each rejected one
+   (diag(1,0): e2 gives 0; [[1,2],[2,1]]: (1,-1) gives -2; diag(1,1,0): e3 gives 0), and the
+   model reads a ragged matrix as padded with zeros *)
+Example C12_sylvester_nonvacuous :
+  symmetric 3 [[2; -1; 0]; [-1; 2; -1]; [0; -1; 2]] = true /\ symmetric 2 [[1; 2]; [3; 1]] = false /\
+  pos_def 1 [[3]] = true /\ pos_def 1 [[0]] = false /\
+  pos_def 2 [[2; -1]; [-1; 2]] = true /\ pos_def 2 [[1; 0]; [0; 0]] = false /\ qform 2 [[1; 0]; [0; 0]] [0; 1] = 0 /\
+  pos_def 2 [[1; 2]; [2; 1]] = false /\ qform 2 [[1; 2]; [2; 1]] [1; -1] = -2 /\
+  pos_def 3 [[2; -1; 0]; [-1; 2; -1]; [0; -1; 2]] = true /\ qform 3 [[2; -1; 0]; [-1; 2; -1]; [0; -1; 2]] [1; 1; 1] = 2 /\
+  pos_def 3 [[1; 0; 0]; [0; 1; 0]; [0; 0; 0]] = false /\ qform 3 [[1; 0; 0]; [0; 1; 0]; [0; 0; 0]] [0; 0; 1] = 0 /\
+  pos_def 2 [[1]; [0; 1]] = true /\ symmetric 2 [[1]; [0; 1]] = true /\
+  ellipsoid_ok 2 3 2 2 [[[2; -1]; [-1; 2]]; [[1; 0]; [0; 0]]] (Some [false; true]) = true /\
+  ellipsoid_ok 2 3 2 2 [[[2; -1]; [-1; 2]]; [[1; 0]; [0; 0]]] None = false /\
+  present (Some [false; true; false]) [[[1]]; [[0]]; [[2]]] = [[[1]]; [[2]]].
+Proof. vm_compute. repeat split. Qed.
+
+(* READ-BACK of the if-chain of GraphVal.validate_data (three flags, no lookup failure, masks zipped silently): the
+   right-hand side is the model's own booleans guarded by its own flags.  It is kept for the old model; the statement
+   about the WHOLE of validate_data (five flags, tracklet / lineage, missing masks, KeyError / IndexError) is
+   C12_dispatch5 / C12_dispatch5_spec at the end of this file, and C12_dispatch5_extends relates the two models.
+   dispatch: validate_data raises iff an enabled validator whose property is declared fails;
    in particular a validator that is not enabled, or whose property is undeclared, never raises *)
 Theorem C12_dispatch : forall cfg d,
   validate_data cfg d = Ok tt <->
@@ -78,6 +155,170 @@ Theorem C12_disabled : forall d,
   validate_data {| c_graph := false; c_sphere := false; c_ellipsoid := false |} d = Ok tt.
 Proof. exact validate_data_disabled. Qed.
 Print Assumptions C12_disabled.
+
+(* ===================================================================================================
+   The whole of validate_data (DataVal.v; proofs in DataValLemmas.v): five flags, the tracklet / lineage branches,
+   _annotated_nodes / _non_missing_values with the REAL missing masks, a declared property that node_props does not
+   hold (KeyError), a mask of the wrong length (IndexError), in the order in which the Python evaluates them.
+   =================================================================================================== *)
+From Geff Require Import Reach Tracks TracksLemmas TracksCyc TracksCycLemmas TracksPathLemmas DataVal DataValLemmas.
+
+(* validate_data returns (raises nothing) iff EVERY ENABLED validator whose property is DECLARED finds the property in
+   node_props, can apply the missing mask, and accepts the entries not flagged missing
+   (accepts p P: True when p is undeclared, False when it is declared but absent from node_props -- the subscript raises
+   KeyError --, P a when it is found; fits: the mask has the length of the array -- otherwise IndexError):
+   graph: C12_graph's right-hand side (graph_valid); sphere / ellipsoid: as in C12_sphere / C12_ellipsoid;
+   tracklet: validate_tracklets returns (True, []) on the annotated nodes and ALL the edges; lineage likewise *)
+Theorem C12_dispatch5 : forall cfg d,
+  validate_data5 cfg d = Ok tt <->
+  (c5_graph cfg = true -> graph_valid (e_directed d) (e_ids d) (e_edges d)) /\
+  (c5_sphere cfg = true ->
+     accepts (e_sphere d) (fun '(nd, rs, ms) => fits ms rs = true /\ sphere_ok nd rs ms = true)) /\
+  (c5_ellipsoid cfg = true ->
+     accepts (e_ellipsoid d) (fun '(nd, r, c, ms, mi) =>
+       fits mi ms = true /\ ellipsoid_ok (e_spatial d) nd r c ms mi = true)) /\
+  (c5_tracklet cfg = true -> accepts (tracklet_decl d) (tracklets_accept d)) /\
+  (c5_lineage cfg = true -> accepts (lineage_decl d) (lineages_accept d)).
+Proof. exact validate_data5_ok_iff. Qed.
+Print Assumptions C12_dispatch5.
+
+(* ... with the declarative characterisations on the right-hand side, for unique node ids:
+   tracklets_spec: the annotated nodes exist (masks fit) and every tracklet of theirs is a maximal unbranched simple path
+   of the graph with ALL its edges (spec_paths of C13_iff_paths: no directed cycle inside, every inner edge the only edge
+   leaving its source and entering its target, no such edge of the graph with exactly one end in the tracklet -- an
+   unannotated neighbour on such an edge makes the tracklet not maximal);
+   lineages_spec: lineage_spec of C14_iff on the annotated nodes (same id iff weakly connected in the graph on node list +
+   mentioned ids, and no annotated node connected to an id that is not annotated) *)
+Theorem C12_dispatch5_spec : forall cfg d, NoDup (e_ids d) ->
+  (validate_data5 cfg d = Ok tt <->
+   (c5_graph cfg = true -> graph_valid (e_directed d) (e_ids d) (e_edges d)) /\
+   (c5_sphere cfg = true ->
+      accepts (e_sphere d) (fun '(nd, rs, ms) =>
+        fits ms rs = true /\ nd = 1%nat /\ Forall (fun r => 0 <= r) (present ms rs))) /\
+   (c5_ellipsoid cfg = true ->
+      accepts (e_ellipsoid d) (fun '(nd, r, c, ms, mi) =>
+        fits mi ms = true /\ (0 < e_spatial d)%nat /\ nd = 3%nat /\ r = c /\ r = e_spatial d /\
+        Forall (fun m => symmetric r m = true /\ pos_def r m = true) (present mi ms))) /\
+   (c5_tracklet cfg = true -> accepts (tracklet_decl d) (tracklets_spec d)) /\
+   (c5_lineage cfg = true -> accepts (lineage_decl d) (lineages_spec d))).
+Proof. exact validate_data5_spec. Qed.
+Print Assumptions C12_dispatch5_spec.
+
+(* what _annotated_nodes keeps: it succeeds iff the mask fits both arrays, and then holds exactly the pairs
+   (node id, track id) stored at the positions not flagged missing *)
+Theorem C12_annotated : forall ids p,
+  ((exists NL, annotated_nodes ids p = Some NL) <->
+   fits (tp_missing p) ids = true /\ fits (tp_missing p) (tp_values p) = true) /\
+  (forall NL, annotated_nodes ids p = Some NL ->
+     forall u t, In (u, t) NL <->
+       exists i, nth_error ids i = Some u /\ nth_error (tp_values p) i = Some t /\ missing_at (tp_missing p) i = false).
+Proof. intros ids p. split; [apply annotated_some_iff | intros NL H; apply (annotated_nodes_spec ids p NL H)]. Qed.
+Print Assumptions C12_annotated.
+
+(* a node whose track id is flagged missing is not among the annotated nodes and belongs to no tracklet / lineage *)
+Theorem C12_missing_no_class : forall ids p NL i u,
+  NoDup ids -> annotated_nodes ids p = Some NL ->
+  nth_error ids i = Some u -> missing_at (tp_missing p) i = true ->
+  ~ In u (nodes_of NL) /\ forall t, ~ In u (class_of NL t).
+Proof. exact missing_not_annotated. Qed.
+Print Assumptions C12_missing_no_class.
+
+(* the fill value stored under a missing flag is never read: replacing it by any v changes nothing *)
+Theorem C12_fill_irrelevant : forall cfg d vals m other i v, nth i m false = true ->
+  (e_track d = Some (Present {| tp_values := vals; tp_missing := Some m |}, other) ->
+   validate_data5 cfg (set_track d (Some (Present {| tp_values := upd_nth i v vals; tp_missing := Some m |}, other))) =
+   validate_data5 cfg d) /\
+  (e_track d = Some (other, Present {| tp_values := vals; tp_missing := Some m |}) ->
+   validate_data5 cfg (set_track d (Some (other, Present {| tp_values := upd_nth i v vals; tp_missing := Some m |}))) =
+   validate_data5 cfg d).
+Proof.
+  intros cfg d vals m other i v Hm. split; intros Ht.
+  - apply validate_data5_fill_tracklet; assumption.
+  - apply validate_data5_fill_lineage; assumption.
+Qed.
+Print Assumptions C12_fill_irrelevant.
+
+(* all five flags off: nothing is raised, whatever the data *)
+Theorem C12_disabled5 : forall d,
+  validate_data5 {| c5_graph := false; c5_sphere := false; c5_ellipsoid := false;
+                    c5_lineage := false; c5_tracklet := false |} d = Ok tt.
+Proof. exact validate_data5_disabled. Qed.
+Print Assumptions C12_disabled5.
+
+(* a flag whose property is not declared is as good as switched off (relevant: each flag and-ed with "declared") ... *)
+Theorem C12_undeclared5 : forall cfg d, validate_data5 cfg d = validate_data5 (relevant cfg d) d.
+Proof. exact validate_data5_relevant. Qed.
+Print Assumptions C12_undeclared5.
+
+(* ... in particular track_node_props = None makes the lineage and tracklet flags irrelevant ... *)
+Theorem C12_no_track5 : forall cfg d, e_track d = None ->
+  validate_data5 cfg d = validate_data5 (with_flags cfg (c5_sphere cfg) (c5_ellipsoid cfg) false false) d.
+Proof. exact validate_data5_no_track. Qed.
+Print Assumptions C12_no_track5.
+
+(* ... and when every enabled flag concerns an undeclared property (graph validation off) nothing is raised *)
+Theorem C12_all_undeclared5 : forall cfg d,
+  c5_graph cfg = false ->
+  (c5_sphere cfg = true -> e_sphere d = Undeclared) -> (c5_ellipsoid cfg = true -> e_ellipsoid d = Undeclared) ->
+  (c5_tracklet cfg = true -> tracklet_decl d = Undeclared) -> (c5_lineage cfg = true -> lineage_decl d = Undeclared) ->
+  validate_data5 cfg d = Ok tt.
+Proof. exact validate_data5_all_undeclared. Qed.
+Print Assumptions C12_all_undeclared5.
+
+(* on the states of the old model (no track declaration, nothing absent, masks of the right length) the five-flag model
+   is the old one, whatever the two new flags: C12_dispatch / C12_disabled stay true of the code there *)
+Theorem C12_dispatch5_extends : forall cfg l t d, masks_fit d = true ->
+  validate_data5 (lift_cfg cfg l t) (lift_data d) = validate_data cfg d.
+Proof. exact validate_data5_extends. Qed.
+Print Assumptions C12_dispatch5_extends.
+
+(* non-vacuity.  Chain 1->2->3 and an isolated node 9; every property stores one value per node.
+   dA: node 9 carries no tracklet / lineage id and no radius: flagged missing, with adversarial fill values (tracklet fill 5 = the
+       id of the chain, lineage fill 7 = the lineage of the chain, radius fill -4): accepted by all five validators;
+   the same without the masks: the fills are read: tracklet 5 is disconnected (FTracklets, raised before the lineage check);
+   only the lineage flag: FLineages; the sphere flag in front: FSphereNeg first;
+   dM: node 2 (middle of the chain) flagged missing in the tracklet property: its edges stay, 1 and 3 can be extended: rejected;
+   declared but absent from node_props: KeyError; mask of the wrong length: IndexError; graph fault first. *)
+Definition c12_all : vconfig5 :=
+  {| c5_graph := true; c5_sphere := true; c5_ellipsoid := true; c5_lineage := true; c5_tracklet := true |}.
+Definition c12_d (sph_mask : option (list bool)) (tk ln : decl tprop) : vdata5 :=
+  {| e_directed := true; e_ids := [1; 2; 3; 9]; e_edges := [(1, 2); (2, 3)]; e_spatial := 2;
+     e_sphere := Present (1%nat, [1; 2; 3; -4], sph_mask); e_ellipsoid := Undeclared;
+     e_track := Some (tk, ln) |}.
+Definition c12_m9 := Some [false; false; false; true].
+Definition c12_tp (vals : list Z) (m : option (list bool)) : decl tprop := Present {| tp_values := vals; tp_missing := m |}.
+
+Example C12_dispatch5_nonvacuous :
+  let dA := c12_d c12_m9 (c12_tp [5; 5; 5; 5] c12_m9) (c12_tp [7; 7; 7; 7] c12_m9) in
+  let dM := c12_d c12_m9 (c12_tp [5; 5; 5; 6] (Some [false; true; false; false])) (c12_tp [7; 7; 7; 8] None) in
+  NoDup (e_ids dA) /\
+  validate_data5 c12_all dA = Ok tt /\
+  tracklets_spec dA {| tp_values := [5; 5; 5; 5]; tp_missing := c12_m9 |} /\
+  lineages_spec dA {| tp_values := [7; 7; 7; 7]; tp_missing := c12_m9 |} /\
+  annotated_nodes [1; 2; 3; 9] {| tp_values := [5; 5; 5; 5]; tp_missing := c12_m9 |} = Some [(1, 5); (2, 5); (3, 5)] /\
+  data_fault c12_all (c12_d c12_m9 (c12_tp [5; 5; 5; 5] None) (c12_tp [7; 7; 7; 7] None)) = Some FTracklets /\
+  data_fault (with_flags c12_all true true true false) (c12_d c12_m9 (c12_tp [5; 5; 5; 5] None) (c12_tp [7; 7; 7; 7] None))
+    = Some FLineages /\
+  data_fault c12_all (c12_d None (c12_tp [5; 5; 5; 5] None) (c12_tp [7; 7; 7; 7] None)) = Some FSphereNeg /\
+  validate_data5 c12_all dM = Err ValueError /\ data_fault c12_all dM = Some FTracklets /\
+  validate_data5 (with_flags c12_all true true true false) dM = Ok tt /\
+  validate_data5 c12_all (c12_d c12_m9 Absent Undeclared) = Err KeyError /\
+  validate_data5 (with_flags c12_all true true true false) (c12_d c12_m9 Absent Undeclared) = Ok tt /\
+  validate_data5 c12_all (c12_d c12_m9 (c12_tp [5; 5; 5; 5] (Some [false; true])) Undeclared) = Err IndexError /\
+  data_fault c12_all (set_track (c12_d c12_m9 Absent Absent) None) = None /\
+  data_fault c12_all {| e_directed := true; e_ids := [1; 1]; e_edges := [(1, 1)]; e_spatial := 0;
+                        e_sphere := Absent; e_ellipsoid := Absent; e_track := Some (Absent, Absent) |}
+    = Some (FGraph FNonUnique).
+Proof.
+  cbv zeta.
+  assert (Hn : NoDup [1; 2; 3; 9]) by (repeat constructor; cbn; intuition discriminate).
+  assert (Hok : validate_data5 c12_all (c12_d c12_m9 (c12_tp [5; 5; 5; 5] c12_m9) (c12_tp [7; 7; 7; 7] c12_m9)) = Ok tt)
+    by (vm_compute; reflexivity).
+  pose proof (proj1 (C12_dispatch5_spec c12_all (c12_d c12_m9 (c12_tp [5; 5; 5; 5] c12_m9) (c12_tp [7; 7; 7; 7] c12_m9)) Hn) Hok)
+    as [_ [_ [_ [Ht Hl]]]].
+  split; [exact Hn|]. split; [exact Hok|]. split; [exact (Ht eq_refl)|]. split; [exact (Hl eq_refl)|].
+  vm_compute. repeat split.
+Qed.
 
 (* non-vacuity: a valid undirected triangle, and the same with a reversed duplicate *)
 Example C12_nonvacuous :
